@@ -149,8 +149,17 @@ func classify(r *e2elife.PickRig) (bool, []string) {
 	r.Lock()
 	for _, rec := range r.RPCs {
 		blocked, gens := 0, map[int]bool{}
-		for _, p := range rec.Picks {
+		for i, p := range rec.Picks {
 			gens[p.Gen] = true
+			if p.Res.Kind == "notready" && p.Res.Shut && !p.AddrShut {
+				cl["answer_is_shut_subconn_before_shutdown_was_reported"] = true
+			}
+			if p.Res.Kind == "notready" && p.Res.Shut && p.AddrShut {
+				cl["answer_is_subconn_in_shutdown"] = true
+				if i > 0 && !rec.Plan.WaitForReady {
+					cl["failfast_rpc_requeued_behind_subconn_in_shutdown"] = true
+				}
+			}
 			if p.Blocking(rec.Plan.WaitForReady) {
 				blocked++
 				if p.Res.Kind == "ready" {
